@@ -13,6 +13,10 @@ import typing
 REPO = os.environ.get("VERIF_REPO", "/repo")
 sys.path.insert(0, REPO)
 import magicbot  # noqa: E402
+import wpilib  # noqa: E402
+import wpilib.simulation  # noqa: E402
+
+DS = wpilib.simulation.DriverStationSim
 
 logging.disable(logging.CRITICAL)
 
@@ -150,6 +154,10 @@ def run_case(c, AM, uid):
     AM.DISABLED = not c["mode"]
     del AM.instances[:]
     R = type("InjRobot%d" % uid, (magicbot.MagicRobot,), rns)
+    # whether the field management system is attached must not matter: a missing or mistyped dependency stops start-up
+    DS.setFmsAttached(uid % 3 == 0)
+    DS.notifyNewData()
+    wpilib.DriverStation.refreshData()
     try:
         r = R()
         ROBOT[0] = r
@@ -189,6 +197,7 @@ def main():
     a = ap.parse_args()
     root = os.path.join(os.getcwd(), "autopkg")
     AM = prepare_package(root)
+    DS.setDsAttached(True)
     out = []
     for i, c in enumerate(json.load(open(a.cases))):
         out.append(run_case(c, AM, i))
